@@ -446,7 +446,7 @@ func (g *recGraph) kindGraphRule(r *Result, scc []*recNode) bool {
 							}
 							for _, t := range to {
 								edges[f][t] = true
-								sites[f+"→"+t] = w.Pos(x.Pos()) + " " + es(x)
+								sites[f+"→"+t] = w.Pos(x.Pos()) + " " + normLocals(info, x) // locals by type: a rename keeps the construct
 							}
 						}
 					}
